@@ -15,14 +15,6 @@ import (
 	"go.uber.org/zap"
 )
 
-func vSnapshot(s *vStore) map[string]string {
-	out := map[string]string{}
-	for k, v := range s.data {
-		out[k] = string(v)
-	}
-	return out
-}
-
 // VerifC08History: after any history of assignments and deletions, get and list agree with the last assignment,
 // and an operation touches nothing but the operated label's own object.
 func VerifC08History() {
